@@ -289,6 +289,9 @@ def boundary_histories():
     hs.append([('add', S('media', kids=[st, co]), 0), ('add', S('page', kids=[S('margin', pre='@top-left')]), 1),
                ('del', 0), ('text', [st])])
     hs.append([('add', S('margin', pre='@top-left'), 0), ('add', im, 0), ('add', ns, 0), ('ins', S('margin', pre='@top-left'), 0, 1)])
+    # the default namespace, used by a bare type selector
+    hs.append([('nsset', '', 'u'), ('ins', S('style', used=['u']), None, 1), ('nsdel', ''), ('nsset', '', 'u'), ('nsset', '', 'v'),
+               ('nsset', 'p', 'u'), ('nsdel', ''), ('del', 0), ('del', 0), ('nsdel', 'p')])
     return hs
 
 
@@ -314,7 +317,7 @@ class Walker:
             if declared and r.random() < 0.4:
                 used = r.sample(declared, r.randint(1, min(2, len(declared))))
             elif r.random() < 0.03:
-                used = [r.choice(self.URI)]
+                used = ['nowhere']
             return Spec(kind, used=used)
         if kind == 'margin':
             return Spec(kind, pre=r.choice(MARGINS))
@@ -352,7 +355,7 @@ class Walker:
         specs, decl = [], []
         for k in kinds:
             s = self.spec(k, list(decl))
-            if k == 'namespace':
+            if k == 'namespace' and s.pre:
                 decl.append(s.uri)
             specs.append(s)
         return specs
@@ -361,7 +364,9 @@ class Walker:
         """st: HistState (implementation side) — used to pick indexes, paths and declared URIs"""
         r = self.rng
         n = len(st.sheet.cssRules)
-        declared = sorted(set(st.sheet.namespaces.namespaces.values()))
+        # URIs a generated selector may use: those declared with a non-empty prefix (a bare type selector `e0` is how
+        # the default namespace is used, but it also parses when nothing is declared — see boundary_histories)
+        declared = sorted(set(u for p, u in st.sheet.namespaces.namespaces.items() if p))
         conts = st.containers()
         x = r.random()
         if x < 0.22:
@@ -402,7 +407,9 @@ class Walker:
             ks = [self.spec(r.choice(['style', 'comment', 'unknown', 'page', 'media', 'style', 'style'] if r.random() < 0.85
                                      else ALLKINDS), declared, 1, nons) for _ in range(r.randint(0, 4))]
         else:
-            ks = [self.spec(r.choice(['margin', 'margin', 'comment', 'unknown'] if r.random() < 0.9 else ALLKINDS), declared, 1)
+            # (no @media/@page inside an @page text: the margin scan of __parseMarginAndStyle looks at all tokens)
+            ks = [self.spec(r.choice(['margin', 'margin', 'comment', 'unknown'] if r.random() < 0.9 else
+                                     [k for k in ALLKINDS if k not in ('media', 'page')]), declared, 1, nons)
                   for _ in range(r.randint(0, 4))]
         return ('ntext', path, ks)
 
@@ -448,10 +455,8 @@ class HistState:
         return r
 
     def prefix_of_sheet(self, uri):
-        for p, u in self.sheet.namespaces.namespaces.items():
-            if u == uri:
-                return p
-        return None
+        ps = [p for p, u in self.sheet.namespaces.namespaces.items() if u == uri]
+        return max(ps, key=len) if ps else None
 
     # -- apply one op, return outcome string
     def apply(self, op):
@@ -472,10 +477,8 @@ class HistState:
                 run = {}
 
                 def pf(uri):
-                    for p, u in run.items():
-                        if u == uri:
-                            return p
-                    return None
+                    ps = [p for p, u in run.items() if u == uri]
+                    return max(ps, key=len) if ps else None
                 parts = []
                 for s in op[1]:
                     parts.append(s.text(pf))
